@@ -4,6 +4,34 @@ import json, os, sys
 VERIF = os.path.dirname(os.path.dirname(os.path.abspath(__file__)))
 ALL = ['C%02d' % i for i in range(1, 20)]
 CHECKS = {
+ 'C08': dict(engine='explore', design='4/C08',
+   text='Explicit-state exploration with a snapshot monitor: every operation instance of the table (~90 unary forms on AnsiString and AnsiStr, + / += / join / join(a,b,a) / AnsiStr+ / replace with a reused formatted replacement on every pair from two BFS pools incl. the same object twice, 8 settings-list entry points) is run on fresh values; receiver and every argument are snapshotted (type, text, ordered cells, exact canonical object graph, AnsiStr payload) before and after; in-place variants must return the receiver and equal the non-in-place result; then each of 10 mutators is applied to the source / each result / each operand and every other party re-observed.',
+   note='Trusted: mc/model.py canonical form (exact object graph incl. identities; renderings and == are functions of it). Pools: complete depth-2 pools on texts of length 2-3 (bounds in evidence).',
+   technique='explicit-state exploration of (operation, operands, mutator) triples with snapshot comparison'),
+ 'C09': dict(engine='explore', design='4/C09',
+   text='(1) Exhaustive edge-argument sweep: ~2700 calls per pool value covering every public method with empty patterns, widths 0/10^4/wrong type, fills of length 0/1/2, bounds +-(L+1) and +-10^9, counts up to 10^9, None, wrong-kind types, malformed settings (incl. a list containing itself) and malformed specs, each under a per-call watchdog with a deterministic 10^6-line budget; only TypeError/ValueError (IndexError for integer index, the error str raises) allowed and the receiver must be canonically unchanged after a raise. (2) Explicit-state BFS over the full mutating alphabet (~110 ops per state incl. out-of-range bounds, zero-width pads, += itself, replace to empty) to depth 2/3 with a deep probe (WITH_ASSERTIONS walk, 8 renderings, every slice/index, find_settings, join, conversions, re-parse, simplify, == copy, closedness) in every new state; bad post-states quarantined.',
+   note='Reading of "terminates": within 10^6 interpreted lines. Floats for indices and invalid regular expressions are outside "documented types".',
+   technique='explicit-state BFS over mutating operation histories + exhaustive edge-argument enumeration under a step-bounded watchdog'),
+ 'C11': dict(engine='explore', design='4/C11',
+   text='Exhaustive over every text up to length 4/5 over {a,b,-} (and a whitespace alphabet) x position-identifying layouts (rainbow, rainbow under every span, abutting equal spans at every cut) x split/rsplit (every separator up to length 2 x maxsplit; None), splitlines, partition/rpartition, strip family, removeprefix/suffix, case methods, assign_str (L-2..L+2), replace (7 replacements incl. styled AnsiString/AnsiStr objects reused across matches x counts), expandtabs, on AnsiString and AnsiStr: each piece must report cells[o:o+len] at the offset found by a reference scan that is itself validated against Python str, and is probed for closedness.',
+   note='Not claimed: case conversions that change the length; replace with an empty search string (style of an empty match undefined).',
+   technique='exhaustive enumeration of (text, layout, method, arguments) against a reference scan + cell model'),
+ 'C12': dict(engine='explore', design='4/C12',
+   text='Values: BFS pools (L 0..4) x ljust/rjust/center/zfill x width 0..L+4 x 6 fill characters (incl. : + - digit) x inplace x extend_formatting (+AnsiStr twin): text via Python format(), cells via the fill model, closedness probe. Spec grammar: 12 values x every spec of the component product (8 fills x 3 signs x 4 aligns x 7 widths x 7 ansi parts) plus every string of length <=3 over 8 metacharacters through format/to_str/f-string/AnsiStr: reference fill-first parser (colon-first admitted where fill-first is invalid), output interpreted by the reference terminal and compared with the pad model, the C06 topmost clause for the ansi part and the fold "pad + apply_formatting on a copy"; receiver canonically unchanged; ValueError outside the grammar.',
+   note='The codes of an ansi part are resolved through the library settings parser (checked by C14).',
+   technique='explicit-state BFS for values + exhaustive enumeration of the spec language against a reference parser'),
+ 'C13': dict(engine='explore', design='4/C13',
+   text='Twin simulation: 4 constructor source kinds x 5 settings forms, then ~900 calls per receiver covering every method the two classes share (table checked against dir() at start-up) with edge arguments, on ~30-60 pool values and (depth 2) on the distinct AnsiStr results of the first round: result shape, type AnsiStr, text, cells, 8 renderings, 3 format specs and exception types must agree with the non-in-place AnsiString call; every AnsiStr ever produced has its payload (str.__str__, join, %s, file.write) compared with its to_str().',
+   note='encode is excluded (outside all properties). __eq__ is not compared (documented to differ).',
+   technique='explicit-state twin (lock-step) exploration of both classes over operation sequences up to depth 2'),
+ 'C16': dict(engine='explore', design='4/C16',
+   text='Exhaustive over 6 texts x layouts (plain, rainbow, every one-span, rainbow+span; two-span in thorough) x 8 plain patterns (with regex metacharacters, empty) and 8 regexes (empty/adjacent/lookahead/optional matches) x match_case x 5 counts x settings menus (incl. none/None/absent): the method result must equal - by canonical state, cells, == and all renderings - the fold of apply/remove_formatting over islice(re.finditer) on a copy; AnsiStr twin.',
+   note='C06/C07 establish apply/remove themselves.',
+   technique='exhaustive enumeration of (value, pattern, flags, count, settings) against a reference fold through the public API'),
+ 'C17': dict(engine='explore', design='4/C17',
+   text='Explicit-state BFS pools (L<=5) x ansi_settings_at/settings_at for every index in [-L-2..L+2] x find_settings for 9 selections x every (start, end) in ([-L-1..L+1]+None)^2 x both directions against a per-character table (first position, run property, first lacking position, inverted/empty cases); AnsiStr twin.',
+   note='A match only at the closing bound is accepted either way (statement silent).',
+   technique='explicit-state BFS over operation histories with exhaustive query probes in every state'),
  'C01': dict(engine='explore', design='4/C01',
    text='(A) Explicit-state BFS pools of real values (apply/remove/slice/concat/pad/assign histories, depth 2-3, set/clear/extended/reset roles) and (B) the optimiser bridge table enumerated directly (all 91 unordered pairs of effect groups x {absent, value1, value2, clear code}^4 on adjacent characters x ballasts x one-span/abutting, plus every single group): every value is rendered under all 8 optimize/reset_start/reset_end combinations (+str/format/f-string, AnsiStr twin) and every rendering is interpreted by an independent SGR terminal from the default and from a dirty prior state and compared with the reduction of the settings the object reports per character.',
    note='Trusted: mc/refterm.py (conforming terminal = the 15-group reading the properties spell out). Verbatim/ill-formed settings are C15 business. Bounds in evidence.',
